@@ -543,3 +543,50 @@ def structured_forms(tier, rng, rep):
                 rep.case(key=(fi, order, reverse), nontrivial=True, sample=inp if (fi, order, reverse) == (0, "signed", False) else None)
                 if len(rep.failures) >= 3:
                     return
+
+
+@bounded(P, "orthogonal_complement_general_forms", functions=[U + "orthogonal_complement", U + "kernel", U + "indefinite_orthogonalize"],
+         note="orthogonal complement of k rows for a general non-degenerate symmetric form (random non-diagonal forms of every signature, rescaled diagonal forms, Coxeter cosine forms) "
+              "and the standard forms: n - k independent rows, each orthogonal to every given row for the form, mutually orthogonal with square-norm +-1 when normalised by the form")
+def orthogonal_complement_general_forms(tier, rng, rep):
+    N = 150 if tier == 'thorough' else 40
+    rep.rule = "m = 2..6, k = 1..m-1 rows in general position (the form restricted to their span is non-degenerate); forms: Q diag Q^T with eigenvalues of modulus in [0.5, 2], diag(-2,1,3,..), cosine form of (2,3,7), standard Minkowski; batch shapes (), (3,)"
+    rep.bound = f"{N} frames"
+    for t in range(N):
+        m = int(rng.integers(2, 7)); k = int(rng.integers(1, m))
+        kind = t % 4
+        if kind == 0:
+            Q = np.linalg.qr(rng.normal(size=(m, m)))[0]
+            F = Q @ np.diag(rng.uniform(0.5, 2, m) * rng.choice([-1, 1], size=m)) @ Q.T; F = (F + F.T) / 2
+        elif kind == 1:
+            F = np.diag(np.array([-2.0, 1.0, 3.0, 0.5, -1.5, 2.5])[:m])
+        elif kind == 2 and m == 3:
+            F = np.array([[1, -np.cos(np.pi / 2), -np.cos(np.pi / 7)], [-np.cos(np.pi / 2), 1, -np.cos(np.pi / 3)], [-np.cos(np.pi / 7), -np.cos(np.pi / 3), 1]])
+        else:
+            F = np.diag([-1.0] + [1.0] * (m - 1))
+        batch = () if t % 3 else (3,)
+        while True:
+            X = rng.normal(size=batch + (k, m))
+            G = X @ F @ np.swapaxes(X, -1, -2)
+            if np.all(np.abs(np.linalg.det(G)) > 0.1):
+                break
+        inp = {"form": F.tolist(), "rows": X.tolist()}
+
+        def body():
+            C = np.asarray(utils.orthogonal_complement(X.copy(), F.copy()), dtype=float)
+            if C.shape != batch + (m - k, m):
+                rep.fail("complement_dimension", f"{C.shape}", inp); return
+            pair = X @ F @ np.swapaxes(C, -1, -2)
+            if not np.all(np.isfinite(C)) or not np.all(np.abs(pair) <= 1e-7 * (1 + np.max(np.abs(X)) * np.max(np.abs(C)))):
+                rep.fail("complement_orthogonal_to_the_rows", f"max |<row, complement row>| = {np.max(np.abs(pair))}", inp); return
+            Gc = C @ F @ np.swapaxes(C, -1, -2)
+            dg = np.diagonal(Gc, axis1=-2, axis2=-1)
+            if not np.all(np.abs(Gc - dg[..., None] * np.identity(m - k)) <= 1e-7) or not np.all(np.abs(np.abs(dg) - 1) <= 1e-7):
+                rep.fail("complement_orthonormal_for_the_form", f"Gram matrix {np.round(Gc, 5).tolist()}", inp); return
+            full = np.concatenate([X, C], axis=-2)
+            if np.any(np.abs(np.linalg.det(full)) < 1e-9):
+                rep.fail("complement_independent", "rows and complement do not span the space", inp)
+        rep.attempt("orthogonal_complement_runs", inp, body)
+        rep.case(key=(t,), nontrivial=kind != 3, sample=inp if t == 0 else None)
+        if len(rep.failures) >= 3:
+            return
